@@ -55,6 +55,12 @@ def doc_text(style, word):
         return ["/** %s */" % word], "/** %s */" % word
     if style == "/*!":
         return ["/*! %s */" % word], "/*! %s */" % word
+    if style == "////":            # a row of slashes is still a '///' comment
+        return ["//// %s" % word], "//// %s" % word
+    if style == "/***":            # a banner is still a '/**' comment
+        return ["/*** %s */" % word], "/*** %s */" % word
+    if style == "///<":
+        return ["///< %s" % word], "///< %s" % word
     if style == "/**ml":
         src = ["/**", " * %s" % word, "   * more", " */"]
         txt = _multi.sub("\n*", "\n".join(src))
@@ -62,7 +68,7 @@ def doc_text(style, word):
     raise ValueError(style)
 
 
-STYLES = ["///", "///", "//!", "/**", "/*!", "/**ml"]
+STYLES = ["///", "///", "//!", "/**", "/*!", "/**ml", "////", "/***"]
 PLAIN = ["// plain %d", "/* plain %d */", "/* multi\n   plain %d */"]
 
 
@@ -122,11 +128,11 @@ class DocGen:
             self.lines.append(indent + keep_prefix)
         body = text
         if plan == "trailing":
-            st = rng.choice(["///", "//!", "/**", "/*!"])
+            st = rng.choice(["///", "//!", "/**", "/*!", "////", "/***", "///<"])
             src, exp = doc_text(st, "t%d" % self.fresh())
             body = text + " " + src[0]
-            if rng.random() < 0.3 and st in ("///", "//!"):
-                src2, e2 = doc_text(rng.choice(["///", "//!"]), "c%d" % self.fresh())
+            if rng.random() < 0.3 and st in ("///", "//!", "////", "///<"):
+                src2, e2 = doc_text(rng.choice(["///", "//!", "////"]), "c%d" % self.fresh())
                 self.lines.append(indent + body)
                 self.lines.append(indent + src2[0])       # a doc line that directly continues the trailing one
                 exp = exp + "\n" + e2
@@ -178,7 +184,16 @@ class DocGen:
         for _ in range(budget):
             n = self.fresh()
             r = rng.random()
-            if r < 0.2:
+            if r < 0.08:
+                # declarations introduced by a specifier, a linkage specification or a decoration: the comment above belongs
+                # to this declaration only, whatever dispatches it
+                pre = rng.choice(["extern ", "static ", "inline ", "constexpr ", 'extern "C" ', "[[nodiscard]] ", "alignas(4) ",
+                                  "__declspec(dllexport) ", "extern const "])
+                if rng.random() < 0.5:
+                    self.decl("sv%d" % n, "%sint sv%d%s;" % (pre, n, " = 3" if "constexpr" in pre else ""), indent, can_trail=True)
+                else:
+                    self.decl("sf%d" % n, "%sint sf%d(int a);" % (pre, n), indent)
+            elif r < 0.2:
                 if rng.random() < 0.3:
                     self.decl("v%d" % n, "int v%d = 1, w%d;" % (n, n), indent, second="w%d" % n)
                 elif rng.random() < 0.3:
